@@ -113,6 +113,51 @@ func runLine(ti, to jsonline.Template, line []byte) (*recWriter, error, string) 
 	return w, err, pan
 }
 
+// runLineAfter does what jl does for `line` when `before` went through the same importer and exporter
+// first (and, typically, failed): only what the second line caused is returned.
+func runLineAfter(ti, to jsonline.Template, before, line []byte) (*recWriter, error, string) {
+	w := &recWriter{failAt: -1}
+	var err error
+	pan := guard(func() {
+		var in bytes.Buffer
+		in.Write(before)
+		in.WriteByte('\n')
+		in.Write(line)
+		in.WriteByte('\n')
+		imp := ti.GetImporter(&in)
+		exp := to.GetExporter(w)
+		if imp.Import() {
+			if row, e := imp.GetRow(); e == nil {
+				_ = exp.Export(row)
+			}
+		}
+		w.writes = nil
+		if !imp.Import() {
+			err = fmt.Errorf("no line scanned")
+			return
+		}
+		var row jsonline.Row
+		row, err = imp.GetRow()
+		if err != nil {
+			return
+		}
+		err = exp.Export(row)
+	})
+	return w, err, pan
+}
+
+// emitLineAfter: a `line` case whose implementation side ran after another line on the same importer and
+// exporter; the model and the oracle judge the line on its own.
+func emitLineAfter(cw *caseWriter, prop string, ti, to []colDesc, before, line []byte) string {
+	w, err, pan := runLineAfter(buildTemplate(ti), buildTemplate(to), before, line)
+	ext := map[string]string{}
+	extForJSON(line, ext)
+	out := lineOutcome(w, err, pan)
+	cw.count("line-after:" + strings.SplitN(out, " ", 3)[0])
+	cw.emit(prop+" after "+string(before)+" | "+descStr(ti)+" | "+descStr(to)+" | "+string(line), true, "line", prop, descStr(ti), descStr(to), hxs(string(line)), extStr(ext), out)
+	return out
+}
+
 // extForText adds every stdlib answer the model may want for a scalar spelled `s`.
 func extForText(s string, into map[string]string) {
 	extFor(s, into)
@@ -716,6 +761,26 @@ func genC03(cw *caseWriter, seed uint64, tier string) {
 		emitLine(cw, "C03", ti, to, line, true)
 		if r.chance(1, 3) {
 			emitText(cw, "C03", to, line, r.chance(1, 2))
+		}
+		if r.chance(1, 4) {
+			// the same line after one that was rejected on the same importer / exporter: at import (invalid
+			// JSON after some members), or at export (a value the output format cannot render), each carrying
+			// undeclared keys of its own
+			before := pick(r, []string{`{"u1":1,"u2":{"k":2},"zz":"left over"`, `{"u1":1,"zz":[1],"u2":2} trailing`, `{"u0":"x","u1":[{"q":1}]}`})
+			emitLineAfter(cw, "C03", ti, to, []byte(before), line)
+			failing := []colDesc{{name: "u9", format: "numeric", ty: "none"}}
+			to9 := append(append([]colDesc{}, to...), failing...)
+			emitLineAfter(cw, "C03", nil, to9, []byte(`{"u8":1,"u9":"not a number","u7":2}`), line)
+			// … and with the next line giving the offending column a good value
+			trimmed := bytes.TrimRight(line, " \t\r")
+			if n := len(trimmed); n >= 2 && trimmed[n-1] == '}' && json.Valid(trimmed) {
+				sep := ","
+				if len(bytes.TrimSpace(trimmed[1:n-1])) == 0 {
+					sep = ""
+				}
+				line9 := append(append(append([]byte{}, trimmed[:n-1]...), []byte(sep+`"u9":5}`)...))
+				emitLineAfter(cw, "C03", nil, to9, []byte(`{"u8":1,"u9":"not a number","u7":2}`), line9)
+			}
 		}
 	}
 }
